@@ -30,6 +30,34 @@ func shapeBytes(class string, rnd *rand.Rand) []byte {
 	return b
 }
 
+// trap is a byte sequence (invalid UTF-8 mixed with combining marks) on which golang.org/x/text's NFKD iterator - used by the
+// keystore encryptor to normalise passphrases - dereferences a nil pointer (found by this check, see DESIGN.md 12.2).
+var trap = []byte{0x30, 0x97, 0x3b, 0x53, 0xf8, 0xa0, 0x0b, 0xcf, 0xdf, 0xf6, 0xcc, 0x8b, 0xdc, 0xb9, 0x9e, 0x36, 0x84, 0xd7, 0x7a, 0x6a, 0xfd, 0x4b, 0xf4, 0x3a}
+
+// fillBytes overrides the random content of a byte field with a content class (the length class stays).
+func fillBytes(b []byte, fill string) []byte {
+	switch fill {
+	case "zeros":
+		for i := range b {
+			b[i] = 0
+		}
+	case "ones":
+		for i := range b {
+			b[i] = 0xff
+		}
+	case "ascii":
+		for i := range b {
+			b[i] = 'a' + byte(i%26)
+		}
+	case "combining":
+		// text made of an invalid-UTF-8 / combining-mark pattern, repeated
+		for i := range b {
+			b[i] = trap[i%len(trap)]
+		}
+	}
+	return b
+}
+
 func shapeDomain(class string, rnd *rand.Rand) []byte {
 	switch class {
 	case "att", "prop", "exit", "randao":
@@ -358,7 +386,7 @@ func (a *APIServer) sendOne(ctx context.Context, get func(string) (*grpc.ClientC
 				acct = fmt.Sprintf("W1/fz%s", m.ID)
 			}
 			var r *pb.GenerateResponse
-			if r, rerr = pb.NewAccountManagerClient(conn).Generate(cctx, &pb.GenerateRequest{Account: acct, Passphrase: shapeBytes(str(sh, "passphrase"), rnd),
+			if r, rerr = pb.NewAccountManagerClient(conn).Generate(cctx, &pb.GenerateRequest{Account: acct, Passphrase: fillBytes(shapeBytes(str(sh, "passphrase"), rnd), str(sh, "fill")),
 				Participants: uint32(shapeU64(str(sh, "participants"))), SigningThreshold: uint32(shapeU64(str(sh, "threshold")))}); rerr == nil {
 				detail = r.GetState().String()
 				if r.GetState() == pb.ResponseState_SUCCEEDED && len(r.GetPublicKey()) == 48 {
@@ -372,7 +400,7 @@ func (a *APIServer) sendOne(ctx context.Context, get func(string) (*grpc.ClientC
 			}
 		case "UnlockAccount":
 			var r *pb.UnlockAccountResponse
-			if r, rerr = pb.NewAccountManagerClient(conn).Unlock(cctx, &pb.UnlockAccountRequest{Account: shapeStr(str(sh, "account"), false, rnd), Passphrase: shapeBytes(str(sh, "passphrase"), rnd)}); rerr == nil {
+			if r, rerr = pb.NewAccountManagerClient(conn).Unlock(cctx, &pb.UnlockAccountRequest{Account: shapeStr(str(sh, "account"), false, rnd), Passphrase: fillBytes(shapeBytes(str(sh, "passphrase"), rnd), str(sh, "fill"))}); rerr == nil {
 				detail = r.GetState().String()
 			}
 		case "LockWallet":
@@ -382,7 +410,7 @@ func (a *APIServer) sendOne(ctx context.Context, get func(string) (*grpc.ClientC
 			}
 		case "UnlockWallet":
 			var r *pb.UnlockWalletResponse
-			if r, rerr = pb.NewWalletManagerClient(conn).Unlock(cctx, &pb.UnlockWalletRequest{Wallet: shapeStr(str(sh, "wallet"), true, rnd), Passphrase: shapeBytes(str(sh, "passphrase"), rnd)}); rerr == nil {
+			if r, rerr = pb.NewWalletManagerClient(conn).Unlock(cctx, &pb.UnlockWalletRequest{Wallet: shapeStr(str(sh, "wallet"), true, rnd), Passphrase: fillBytes(shapeBytes(str(sh, "passphrase"), rnd), str(sh, "fill"))}); rerr == nil {
 				detail = r.GetState().String()
 			}
 		case "DkgPrepare":
